@@ -70,7 +70,7 @@ func pfResolve(c *corpus, s pfSpec) *pfFun {
 	if r := sig.Recv(); r != nil {
 		g.recvObj = r
 		_, rn := pfNamed(r.Type())
-		if rn == "Keeper" || len(s.reads) > 0 {
+		if rn == "Keeper" {
 			g.keeper = true
 		} else {
 			rt := types.Unalias(r.Type())
@@ -99,7 +99,9 @@ func pfResolve(c *corpus, s pfSpec) *pfFun {
 		case pfScalar(kd):
 			g.params = append(g.params, v)
 		default:
-			if _, ok := types.Unalias(v.Type()).Underlying().(*types.Struct); ok {
+			_, isStruct := types.Unalias(v.Type()).Underlying().(*types.Struct)
+			_, isIface := types.Unalias(v.Type()).Underlying().(*types.Interface)
+			if isStruct || isIface && len(s.reads) > 0 {
 				g.structP[v] = true
 				g.dropped[i] = true // passed through its fields (discovered inputs)
 			} else {
